@@ -342,4 +342,22 @@ theorem forMap_consumes (vars : List String) (b : Stmt) : ∀ (n : Nat) (m : Lis
           | interrupt => simp [he, NoLoopSig]
           | error m => simp [he, NoLoopSig]
 
+theorem noSig_assignAll : ∀ (n : Nat) (ls : List Expr) (vs : List RV) (s : St), NoSig s → NoSig (assignAll n ls vs s) := by
+  intro n
+  induction n with
+  | zero => intro ls vs s _; simp [assignAll]
+  | succ n ih =>
+    intro ls vs s hs
+    cases ls with
+    | nil => simpa [assignAll] using hs
+    | cons l ls =>
+      cases vs with
+      | nil => simpa [assignAll] using hs
+      | cons v vs =>
+        simp only [assignAll]
+        have h1 := (sig_all n).letExpr l { s with rv := v } (by simpa [NoSig] using hs)
+        split
+        · exact h1
+        · exact ih _ _ _ h1
+
 end Anko
